@@ -175,15 +175,44 @@ def special_fills(dt, shape):
     very last entry -, +inf, -inf, both, and signed zeros."""
     if np.dtype(dt).kind not in 'fc':
         return []
+    pos = _special_positions(shape)
+    return (['nan%d' % k for k in pos] + ['pinf', 'ninf', 'inf', 'zero', 'nzero']
+            + ['mx:%s:%s:%d:%d' % (v, w, i, j)
+               for v, w in MIXED_SPECIALS for i in pos for j in pos if i != j])
+
+
+# two special values in ONE array whose combination is again special under the reductions: a
+# zero and a non-finite entry (0 * inf = nan under multiply), opposite infinities (inf - inf =
+# nan under add), an infinity and a NaN (NaN wins under minimum / maximum although the infinity
+# is already the extreme value).  They are placed at every ORDERED pair of distinct positions of
+# the position alphabet, i.e. in every pair of parts / leaves in both orders and inside one
+# leaf: a reduction assembled from partial results (or leaving early once "the result is
+# clear") must still give what NumPy gives on the whole array.
+MIXED_SPECIALS = [('z', 'pinf'), ('z', 'ninf'), ('z', 'nan'), ('nz', 'pinf'),
+                  ('pinf', 'ninf'), ('pinf', 'nan'), ('ninf', 'nan')]
+_SPECIAL_VALUE = {'z': 0.0, 'nz': -0.0, 'pinf': np.inf, 'ninf': -np.inf, 'nan': np.nan}
+
+
+def _special_positions(shape):
+    """Flat positions of the special values: the first entry of every leaf (row along the last
+    axis; every entry in 1-d) and the very last entry."""
     n = int(np.prod(shape))
     leaf = shape[-1] if len(shape) > 1 else 1
-    pos = sorted(set(list(range(0, n, leaf)) + [n - 1]))
-    return ['nan%d' % k for k in pos] + ['pinf', 'ninf', 'inf', 'zero', 'nzero']
+    return sorted(set(list(range(0, n, leaf)) + [n - 1]))
 
 
 def _special(dt, shape, which):
     n = int(np.prod(shape)) if len(shape) else 1
     a = np.array(_F['a1'][:n], dtype=float)
+    if which.startswith('mx:'):
+        _, v, w, i, j = which.split(':')
+        if np.dtype(dt).kind == 'c':
+            a = a + 1j * np.array(_F['b2'][:n])
+        # the special entries are purely real (a complex zero is 0 + 0j)
+        a[int(i)] = _SPECIAL_VALUE[v]
+        a[int(j)] = _SPECIAL_VALUE[w]
+        with np.errstate(all='ignore'):
+            return a.astype(dt).reshape(shape)
     if which.startswith('nan'):
         a[int(which[3:])] = np.nan
     elif which == 'pinf':
@@ -237,6 +266,58 @@ SCALAR = {'float64': 2.0, 'float32': 2.0, 'complex128': (1 + 2j), 'int64': 3, 'b
 DTYPE_KW = {'float64': ['float32', 'complex128'], 'float32': ['float64'],
             'complex128': ['complex64'], 'int64': ['float64', 'int32'], 'bool': ['int64']}
 WIDER = {'float64': 'complex128', 'float32': 'float64', 'int64': 'float64', 'bool': 'int64'}
+
+# operands of ANOTHER dtype than the element (wider, narrower, other kind), in every form an
+# array-like comes in.  Fractional / complex values, so that a conversion of the operand to the
+# element's dtype (instead of NumPy's promotion of both) changes numbers and result dtype.
+OTHER_SCALAR = {'float64': 2.5, 'float32': 2.5, 'complex128': (0.5 + 2j), 'int64': 3,
+                'bool': True}
+# a Python float that does not fit the element's dtype (NumPy 1.x promotes by value)
+HUGE_SCALAR = {'float32': 1e300}
+
+
+def other_dtype_operands(dt, leaf=False, fl='b1'):
+    """Operand specs of every dtype of the alphabet other than ``dt``: ndarray, nested list,
+    Python scalar, NumPy scalar, 0-d array (``leaf``: the array-likes are of the leaf shape of a
+    power space, to be broadcast to every part)."""
+    ops = []
+    seen_py = set()
+    # scalar forms of the element's own dtype besides the Python scalar: NumPy scalar, 0-d array
+    ops.append(('SN', np.dtype(dt).type(SCALAR[dt])))
+    ops.append(('S0', SCALAR[dt], dt))
+    for d2 in DTYPES:
+        if d2 == dt:
+            continue
+        v = OTHER_SCALAR[d2]
+        ops.append(('CD' if leaf else 'AD', fl, d2))
+        if not leaf:
+            ops.append(('LD', fl, d2))
+        if type(v) not in seen_py and type(v) is not type(OTHER_SCALAR[dt]):
+            seen_py.add(type(v))
+            ops.append(('SD', v))
+        ops.append(('SN', np.dtype(d2).type(v)))
+        ops.append(('S0', v, d2))
+    if dt in HUGE_SCALAR:
+        ops.append(('SD', HUGE_SCALAR[dt]))
+    return ops
+
+
+def other_dtype_elements(ctx, fl='b1'):
+    """Operand specs: element of the space of the same kind and shape over every other dtype."""
+    out = []
+    for d2 in DTYPES:
+        if d2 == ctx.dt:
+            continue
+        try:
+            ctx.other_space(ctx.shape, d2)
+        except Exception:
+            # the sibling space cannot be built (array weights of a wider dtype than the
+            # space: the constructor refuses) - no such element exists
+            ctx.inappl += 1
+            continue
+        out.append(('E2', fl, ctx.shape, '', d2))
+    return out
+
 
 FAMILY_CLS = {'tensor': NumpyTensor, 'discr': DiscretizedSpaceElement,
               'power': ProductSpaceElement}
@@ -495,6 +576,17 @@ def mk_operand(ctx, spec):
         return a.tolist(), a.tolist(), None
     if k == 'S':                       # Python scalar
         return spec[1], spec[1], None
+    if k == 'AD':                      # ndarray of the element's shape, ANOTHER dtype
+        a = fill(spec[2], ctx.shape, spec[1])
+        return a.copy(), a.copy(), a
+    if k == 'LD':                      # nested list of Python numbers of another kind
+        a = fill(spec[2], ctx.shape, spec[1])
+        return a.tolist(), a.tolist(), None
+    if k in ('SD', 'SN'):              # Python / NumPy scalar of another kind / dtype
+        return spec[1], spec[1], None
+    if k == 'S0':                      # 0-d array of another dtype
+        a = np.array(spec[1], dtype=spec[2])
+        return a.copy(), a.copy(), a
     if k == 'EB':                      # power spaces: element of the base space (depth 1) or
         # of the base of the base (depth 2, nested power spaces); shape = trailing axes
         sp = ctx.space
@@ -507,8 +599,8 @@ def mk_operand(ctx, spec):
         a = fill(dt2, shape, spec[1])
         sp = ctx.other_space(shape, dt2, variant)
         return sp.element(a.copy()), a.copy(), a
-    if k == 'A2':                      # ndarray of another shape (outer)
-        a = fill(ctx.dt, spec[2], spec[1])
+    if k == 'A2':                      # ndarray of another shape (outer), optionally dtype
+        a = fill(spec[3] if len(spec) > 3 else ctx.dt, spec[2], spec[1])
         return a.copy(), a.copy(), a
     if k == 'T':                       # plain tensor of the element's shape (discr operands)
         a = fill(ctx.dt, ctx.shape, spec[1])
@@ -520,6 +612,9 @@ def mk_operand(ctx, spec):
         return odl.tensor_space(a.shape, dtype=ctx.dt).element(a.copy()), a.copy(), a
     if k == 'VA':
         a = np.array(spec[1], dtype=ctx.dt)
+        return a.copy(), a.copy(), a
+    if k == 'VAD':                     # values as an ndarray of another dtype
+        a = np.array(spec[1], dtype=spec[2])
         return a.copy(), a.copy(), a
     raise KeyError(k)
 
@@ -896,8 +991,8 @@ def run_case(ctx, uf, method, ops, outspec, kw, ref0=None, extra_tags=()):
 # per-section alphabets
 
 def _dtype_kws(ctx, full):
-    lst = DTYPE_KW[ctx.dt]
-    return [{'dtype': d} for d in (lst if full else lst[:1])]
+    # every value of the keyword's alphabet in both tiers (down-cast, up-cast, kind change)
+    return [{'dtype': d} for d in DTYPE_KW[ctx.dt]]
 
 
 def _mask(shape):
@@ -969,6 +1064,28 @@ def sec_call(ctx, uf, full):
                 run_case(ctx, uf, '__call__', ops, outs[0], {'order': 'F'})
                 run_case(ctx, uf, '__call__', ops, outs[1] if len(outs) > 1 else outs[0],
                          {'casting': 'unsafe', 'dtype': DTYPE_KW[ctx.dt][0]})
+    # operands of another dtype than the element, in every array-like form, both orders
+    # (quick: array and Python scalar on the left, everything on the right)
+    if uf.nin == 2:
+        outs_d = outs[:4] if uf.nout == 1 else outs[:2]
+        for order in (0, 1):
+            fl2 = 'a1' if order else 'b1'
+            more = other_dtype_operands(ctx.dt, fl=fl2) + other_dtype_elements(ctx, fl2)
+            if ctx.family == 'discr' and not full:
+                if order == 0:
+                    more.append(('T', fl2))     # element of the underlying tensor space
+                else:
+                    # tensor first: NumpyTensor.__array_ufunc__ answers and wraps the result as
+                    # a tensor; which operand's kind wins is not said anywhere -> unspecified
+                    ctx.skipped += 1
+            for x2 in more:
+                if order and not full and x2[0] not in ('AD', 'SD', 'E2'):
+                    continue
+                ops = [('E', 'a1'), x2] if order == 0 else [x2, ('E', 'b1')]
+                for o in outs_d:
+                    if run_case(ctx, uf, '__call__', ops, o, {}) is False and \
+                            o in ('none', ('none', 'none')):
+                        break
     _call_foreign_out(ctx, uf)
 
 
@@ -1104,6 +1221,12 @@ def sec_outer(ctx, uf, full):
     if ctx.family == 'discr':
         seconds.append(('E2', 'b1', (2,), 'n', dt))
         seconds.append(('T', 'b1'))
+    # operands of every other dtype, as element and as ndarray
+    for d2 in DTYPES:
+        if d2 != dt and (full or d2 != DTYPE_KW[dt][0]):
+            seconds.append(('E2', 'b1', (2,), '', d2))
+        if d2 != dt:
+            seconds.append(('A2', 'b1', (2,), d2))
     if full:
         seconds.append(('E2', 'b1', (2, 2), '', dt))
         seconds.append(('E2', 'b1', (2,), '', DTYPE_KW[dt][0]))
@@ -1172,6 +1295,16 @@ def sec_at(ctx, uf, full):
             if run_case(ctx, uf, 'at', [('E', 'a1'), ('RAW', idx), vs], 'none', {},
                         extra_tags=t) is False:
                 break
+        else:
+            # values of another dtype than the element (NumPy casts them 'same_kind' into the
+            # element or refuses: not applicable then)
+            more = [v for v in other_dtype_operands(ctx.dt) if v[0] in ('SD', 'SN', 'S0')]
+            if len(vshape) == 1:
+                more += [('VAD', fill(d2, vshape, 'b1').tolist(), d2)
+                         for d2 in DTYPES if d2 != ctx.dt]
+            for vs in more:
+                run_case(ctx, uf, 'at', [('E', 'a1'), ('RAW', idx), vs], 'none', {},
+                         extra_tags=tag + ['vals=' + vs[0]])
 
 
 def sec_reduceat(ctx, uf, full):
@@ -1246,9 +1379,10 @@ def _legacy_one(ctx, name, uf, x_fill, x2spec, outspec, kw, cls, red=None, extra
     o_args, r_args = [], []
     keep = []
     if x2spec is not None:
-        if x2spec[0] == 'C':            # array of the leaf shape (product spaces: "support
-            # broadcasting, per component and even recursively" -> handed down to the leaves)
-            b = fill(ctx.dt, ctx.shape[-1:], x2spec[1])
+        if x2spec[0] in ('C', 'CD'):    # array of the leaf shape (product spaces: "support
+            # broadcasting, per component and even recursively" -> handed down to the leaves);
+            # 'CD': of another dtype than the element
+            b = fill(x2spec[2] if x2spec[0] == 'CD' else ctx.dt, ctx.shape[-1:], x2spec[1])
             o_args, r_args = [b.copy()], [b.copy()]
             keep = [(o_args[0], b)]
         else:
@@ -1352,6 +1486,8 @@ def _legacy_one(ctx, name, uf, x_fill, x2spec, outspec, kw, cls, red=None, extra
         if x2spec is not None and x2spec[0] == 'C':
             # per-component broadcasting of a component-shaped array is NumPy's broadcasting
             x2np = ('A2', x2spec[1], ctx.shape[-1:])
+        elif x2spec is not None and x2spec[0] == 'CD':
+            x2np = ('A2', x2spec[1], ctx.shape[-1:], x2spec[2])
         elif x2spec is not None and x2spec[0] == 'EB':
             x2np = ('A2', x2spec[1], ctx.shape[x2spec[2]:])
         ops = [('E', x_fill)] + ([x2np] if x2np is not None else [])
@@ -1460,7 +1596,7 @@ def sec_legacy(ctx, name, full):
         axes += [{'axis': -1}]
         if ctx.ndim >= 2:
             axes += [{'axis': tuple(range(ctx.ndim))}, {'axis': (0,)}]
-        outs = ['none', 'elem', 'ndarray']
+        outs = ['none', 'elem', 'ndarray'] + (['tensor'] if ctx.family == 'discr' else [])
         for ax in axes:
             for kd in ({}, {'keepdims': True}):
                 for ex in [{}] + _dtype_kws(ctx, full):
@@ -1487,6 +1623,11 @@ def sec_legacy(ctx, name, full):
                 for kw in _dtype_kws(ctx, full):
                     for o in ('none', 'elem'):
                         _legacy_one(ctx, name, uf, fl, None, o, kw, cls)
+        if not power:
+            # keyword options are handed through to NumPy ("See Also: numpy.<name>")
+            for o in ('elem', 'ndarray', 'elem_w'):
+                _legacy_one(ctx, name, uf, 'a1', None, o,
+                            {} if o == 'elem_w' else {'where': _mask(ctx.shape)}, cls)
     elif uf.nin == 1 and uf.nout == 2:
         outs = [('none', 'none'), ('elem', 'elem')]
         if not power:
@@ -1504,10 +1645,19 @@ def sec_legacy(ctx, name, full):
             if ctx.ndim >= 3:
                 seconds += [('EB', 'b1', 2), ('EB', 'b2', 1)]
         else:
-            seconds += [('A', 'b1'), ('B', 'b1')]
+            seconds += [('A', 'b1'), ('B', 'b1'), ('L', 'b1')]
+        # second operand of another dtype than the element (wider, narrower, other kind) as
+        # ndarray / list / Python scalar / NumPy scalar / 0-d array: "the legacy interface
+        # agrees with the NumPy call", i.e. NumPy's promotion of BOTH operands decides numbers
+        # and result dtype
+        seconds += other_dtype_operands(ctx.dt, leaf=power)
+        if not power:
+            seconds += other_dtype_elements(ctx)
+        if ctx.family == 'discr':
+            seconds += [('T', 'b1')]        # element of the underlying tensor space
         outs = ['none', 'elem', 'alias']
         if not power:
-            outs += ['ndarray']
+            outs += ['ndarray', 'elem_w'] + (['tensor'] if ctx.family == 'discr' else [])
         for x2 in seconds:
             fl = 'a2' if x2[1] == 'b2' else 'a1'
             for o in outs:
@@ -1517,6 +1667,8 @@ def sec_legacy(ctx, name, full):
                 for kw in _dtype_kws(ctx, full):
                     for o in ('none', 'elem'):
                         _legacy_one(ctx, name, uf, fl, x2, o, kw, cls)
+                for o in ('elem', 'ndarray'):
+                    _legacy_one(ctx, name, uf, fl, x2, o, {'where': _mask(ctx.shape)}, cls)
 
 
 # ------------------------------------------------------------------------------------------
@@ -1655,6 +1807,39 @@ def sec_wrap(ctx, full):
                         'array that is already contiguous in that order' % (vname, order),
                         ['order'])
                 ctx.sigs.add('wrap>order:%s%s' % (vname, order))
+    # "Elements can also be constructed from a data pointer, resulting again in shared memory"
+    # (NumpyTensorSpace.element; "order must be either 'C' or 'F'", the array contiguous)
+    if ctx.family == 'tensor':
+        for order in ('C', 'F'):
+            arr = np.array(base, order=order, copy=True)
+            for src in ('array', 'element'):
+                ctx.evals += 1
+                tg = ['data_ptr']
+                try:
+                    holder = arr if src == 'array' else sp.element(arr, order=order)
+                    ptr = arr.ctypes.data if src == 'array' else holder.data_ptr
+                    el = sp.element(data_ptr=ptr, order=order)
+                except Exception as e:
+                    bad('raises:' + type(e).__name__, 'space.element(data_ptr=<pointer of a %s-'
+                        'ordered %s>, order=%r): %r' % (order, src, order, e), tg)
+                    continue
+                got = el.asarray()
+                if not _bits_equal(got, base):
+                    bad('asarray_roundtrip', 'space.element(data_ptr=<pointer of a %s-ordered '
+                        '%s holding %s>, order=%r).asarray() = %s'
+                        % (order, src, _short(base), order, _short(got)), tg)
+                    continue
+                i0 = (0,) * len(shape)
+                el[i0] = prefill(dt, ())[()]
+                if arr[i0] != prefill(dt, ())[()]:
+                    bad('memory_not_shared', 'writing the element built from a data pointer did '
+                        'not change the array (order=%r)' % order, tg)
+                arr[i0] = base[i0]
+                if not _bits_equal(el.asarray(), base):
+                    bad('memory_not_shared', 'writing the array did not change the element '
+                        'built from its data pointer (order=%r)' % order, tg)
+                ctx.sigs.add('wrap>data_ptr:' + order)
+            del arr
     # __array_wrap__
     el = sp.element(base.copy())
     arr = fill(dt, shape, 'b1')
@@ -1690,6 +1875,10 @@ def sec_wrap(ctx, full):
 # ------------------------------------------------------------------------------------------
 # H-part: histories of in-place operations against an ndarray mirror
 
+HIST_OTHER = {'float64': 'float32', 'float32': 'float64', 'complex128': 'float64',
+              'int64': 'bool', 'bool': 'bool'}
+
+
 def _hist_ops(ctx):
     nd = ctx.ndim
     m = ctx.shape[-1] - 1
@@ -1702,6 +1891,7 @@ def _hist_ops(ctx):
     n1 = len(np.zeros(ctx.shape)[i1])
     v1 = fill(ctx.dt, (n1,), 'b1')
     sc = SCALAR[ctx.dt]
+    w = fill(HIST_OTHER[ctx.dt], ctx.shape, 'b2')
     ops = [
         ('add.at(x,i1,v)', lambda x, y: np.add.at(x, i1, v1.copy())),
         ('multiply.at(x,i2,s)', lambda x, y: np.multiply.at(x, i2, sc)),
@@ -1713,6 +1903,8 @@ def _hist_ops(ctx):
         ('add.accumulate(x,out=x)', lambda x, y: np.add.accumulate(x, out=x)),
         ('square(x,out=x)', lambda x, y: np.square(x, out=x)),
         ('multiply.at(y,i1,v)', lambda x, y: np.multiply.at(y, i1, v1.copy())),
+        # operand of another dtype, result cast into the element ('same_kind')
+        ('add(x,w,out=x)', lambda x, y: np.add(x, w.copy(), out=x)),
     ]
     return ops
 
@@ -2135,7 +2327,7 @@ def configs(tier):
     names = [u[0] for u in OU.UFUNCS] + sorted(LEGACY_RED)
     # the nested power space belongs to the thorough tier, except for the legacy namespace,
     # whose recursive per-component broadcasting only a nested space exercises
-    kd_legacy = kd + ([('p2p2t3', 'float64')] if tier == 'quick' else [])
+    kd_legacy = kd + ([('p2p2t3', 'float64'), ('p3t2w', 'float64')] if tier == 'quick' else [])
     for k, dt in kd_legacy:
         for name in names:
             cfgs.append({'sec': 'legacy', 'kind': k, 'dtype': dt, 'ufunc': name, 'full': fl})
